@@ -28,7 +28,8 @@ def main_paths(p):
     """Abstractly evaluate main() with the wallet API summarised; return one record per path."""
     summ = dict(X.DEFAULT_SUMMARIES)
     parser = S('parser', type='argparser')
-    summ['__main__.parse_args'] = lambda ev, fi, env, facts: (T.tup([parser, ARGS]), facts)
+    argv_seen = []
+    summ['__main__.parse_args'] = lambda ev, fi, env, facts: (argv_seen.append(env[fi.params[0]]) or T.tup([parser, ARGS]), facts)
 
     def ctor(name):
         def f(ev, fi, env, facts):
@@ -52,6 +53,7 @@ def main_paths(p):
     ev = Evaluator(p, 'ecdsa', summaries=summ)
     v, f = ev.call_function('__main__.main', [])
     out = []
+    main_paths.argv = list(argv_seen)
     for cs, leaf in leaves(v):
         cmd = None
         for c in cs:
@@ -193,6 +195,10 @@ def run(ctx):
                 ob.require(False, 'main() has a path that neither emits the wallet nor exits (%s)' % rec['kind'], fmain.where,
                            found=T.show(rec['leaf'], maxdepth=3))
         ob.require(seen == set(CTORS), 'every sub-command reaches wallet output', fmain.where, expected=sorted(CTORS), found=sorted(seen))
+        argv = getattr(main_paths, 'argv', [])
+        ob.require(len(argv) == 1 and argv[0] == T.slice_(T.sym('sys.argv', type='list'), T.const(1), T.NONE),
+                   'main() parses sys.argv[1:] (the arguments without the program name)', fmain.where,
+                   found=[T.show(x) for x in argv])
         ob.require(any(r['kind'] == 'exit' for r in paths), 'an unknown command is refused', fmain.where)
         # no handler in main swallows errors
         ob.require(not [n for n in ast.walk(fmain.node) if isinstance(n, ast.Try)], 'main() contains no try/except that could swallow '
@@ -382,6 +388,17 @@ def check_sinks(ctx, rule):
                    found=[tuple(T.show(x, maxdepth=3) for x in e[4]) for e in writes])
         ob.require(not [e for e in e3.effects if e[0] == 'stream-write' and not e[3].startswith('sys.stdout')],
                    'pprint writes only to standard output', fpp.where)
+        # export_to_file writes the contents it is given into the path it is given
+        fetf = p.get_function('paper_wallet.PaperWallet.export_to_file')
+        e5 = Evaluator(p, 'ecdsa')
+        cont = S('contents', type='str')
+        e5.call_function('paper_wallet.PaperWallet.export_to_file', [path, cont])
+        opens = [e for e in e5.effects if e[0] == 'open']
+        fw = [e for e in e5.effects if e[0] == 'file-write']
+        ob.require(len(opens) == 1 and opens[0][3][:1] == (T.show(path),), 'export_to_file opens the requested path', fetf.where,
+                   found=[e[3] for e in opens])
+        ob.require(len(fw) == 1 and fw[0][4] == (cont,), 'export_to_file writes the contents it is given', fetf.where,
+                   found=[tuple(T.show(x) for x in e[4]) for e in fw])
         # json(data) renders the data it is given
         summ2 = dict(X.DEFAULT_SUMMARIES)
         summ2['paper_wallet.PaperWallet.generate'] = summ['paper_wallet.PaperWallet.generate']
